@@ -25,7 +25,7 @@ ASSUMPTIONS = [
     "tables of 1..7 and 10..12 rows; orientation angles {0, 1e-8, 1e-4, 1, pi-1e-3, pi-1e-6, pi} about e_z and (1,2,-2)/3; positions up to 1e4",
     "orientation tolerance 2e-6 rad for exact formats (float32 rotation vectors), sqrt(3)*0.5*10^-p + 2e-6 for CSV with p decimals",
     "CSV features are compared by value after CSV typing (float32 comes back as float64, nulls stay nulls)",
-    "added during the seeding waves: row counts around 6 and 11, column orders and names, file names with several dots / upper-case suffix / Path objects, tables that were reloaded / sorted / Fortran-ordered / strided before saving, CSV precisions 10 and 12",
+    "added during the seeding waves: zero-row tables (three origins x with/without features x seven reader/writer pairs), row counts around 6 and 11, column orders and names, file names with several dots / upper-case suffix / Path objects, tables that were reloaded / sorted / Fortran-ordered / strided before saving, CSV precisions 10 and 12",
 ]
 
 ANGLES = [0.0, 1e-8, 1e-4, 1.0, np.pi - 1e-3, np.pi - 1e-6, np.pi]
